@@ -162,6 +162,13 @@ def run_case(case):
                 if bool(N.is_nibbles_terminated(full)) != t or tuple(N.remove_nibbles_terminator(full)) != ns or \
                         tuple(N.add_nibbles_terminator(ns)) != ns + (16,):
                     res.fail("terminator-helpers", "terminator helpers disagree on %r" % (full,))
+                if t:
+                    # an already terminated sequence: adding the terminator again changes nothing, and the leaf key of it is HP too
+                    again, aerr = call(lambda: (tuple(N.add_nibbles_terminator(full)), tuple(N.add_nibbles_terminator(list(full))),
+                                                ND.compute_leaf_key(full)))
+                    if aerr is not None or again != (full, full, yp_hp(list(ns), True)):
+                        res.fail("terminator-helpers", "add_nibbles_terminator / compute_leaf_key on the terminated %r: %r / %r"
+                                 % (full, again, aerr))
                 # the same sequence held in a list (the library itself passes lists: encode_nibbles([idx]), compute_leaf_key([]))
                 lfull = list(full)
                 lenc, lerr = call(lambda: N.encode_nibbles(lfull))
